@@ -38,7 +38,11 @@ def render_tok(rnd, depth, names):
     if depth < 8 and r < 0.12:
         n = rnd.choice((0, 1, 1, 2, 3, 5))
         inner = [render_tok(rnd, depth + 1, names) for _ in range(n)]
-        sep = rnd.choice((" ", " ", "  ", "\t", "\n"))
+        sep = rnd.choice((" ", " ", "  ", "\t", "\n", "\r", "\r\n"))
+        if rnd.random() < 0.15 and inner:
+            # a comment in the middle of a body, ended by each of the line ends (LF, CR LF, a lone CR)
+            k = rnd.randrange(len(inner))
+            inner[k] = inner[k] + rnd.choice((" ", "  ", "\t")) + "#" + rnd.choice(("", " c", " one 0x00 OP_1", "x")) + rnd.choice(("\n", "\r", "\r\n", "\r\r", "\n\r"))
         body = sep.join(inner)
         if rnd.random() < 0.1 and body:
             # brackets inside a comment are only exercised directly inside an argv word (at deeper levels the
@@ -151,7 +155,7 @@ def lines(ctx):
         k = rnd.choice((1, 2, 3, 4))
         inner = [render_tok(rnd, 1, names) for _ in range(k)]
         text = "[" + " ".join(inner) + "]"
-        if "\n" in text or "\t" in text or "#" in text or "  " in text or "[ " in text or " ]" in text:
+        if "\n" in text or "\r" in text or "\t" in text or "#" in text or "  " in text or "[ " in text or " ]" in text:
             continue
         words = text.split(" ")
         progs.append([render_tok(rnd, 9, names)] + words + [render_tok(rnd, 9, names)])
@@ -159,6 +163,7 @@ def lines(ctx):
     # the same text split over several argv words where it has no tab / newline)
     for s_ in ("[[OP_2] OP_1]", "[sha256([1 2]) OP_1]", "[[OP_2]#c\nOP_1]", "[[]5]", "[[OP_2]OP_1]", "[OP_1[OP_2]]", "[[OP_2][OP_3]]", "[5[]]",
                "[[]55]", "[[OP_1]#]", "[[OP_1]#", "[int(0x0102030405) OP_1]", "int(0x0102030405)", "[hash160([OP_1 [OP_2]]) [echo([])]]",
+               "[OP_1 # one\rOP_2 # two\nOP_3]", "[OP_1 [OP_2 #x\r 0xaabb #y\r 17] # z\rOP_3]", "[OP_1 #a\r\nOP_2]", "[OP_1\rOP_2]", "[OP_1 #\rOP_2]",
                "[a]b", "[[a]b]", "[a][b]", "[[OP_1]]]", "[[OP_1] ]]", "[OP_1 ] OP_2]", "sha256([1 2])", "[reverse([1 2 3])#x\n]"):
         progs.append([s_])
     for _ in range(1500 if quick else 40000):
